@@ -1,6 +1,11 @@
 package cli
 
-import "strings"
+import (
+	"encoding/json"
+	"errors"
+	"io"
+	"strings"
+)
 
 // C17 (command side) — getLineByOffset / formatLineInfo: the line number is that of the
 // offending byte, the excerpt is a piece of that line containing it, the caret column is
@@ -160,4 +165,231 @@ func H_C17_long() {
 	vassume(1 <= offset)
 	vassume(offset <= len(str)+1)
 	c17Check(str, offset)
+}
+
+// ---- the windowed re-read of a seekable input (getContents) ----
+
+// c17Window: the report is built from a window of the input. It is right when the window
+// is a contiguous part of the input lying where the relative offset says (so the
+// offending byte is in it, at that offset), the lines skipped before it are counted, and
+// the printed line number is the true one. The excerpt and the caret then follow from
+// getLineByOffset on (window, relative offset), decided for every text by H_C17_line/long/utf8.
+func c17Window(whole string, abs int, contents string, rel int, line int, eof bool) {
+	if eof {
+		vassert(rel == len(contents)+1, "an unexpected end of input is reported one past the last byte of the window")
+	} else {
+		vassert(1 <= rel && rel <= len(contents), "the window contains the offending byte")
+	}
+	ws := abs - rel
+	ok := ws >= 0 && ws+len(contents) <= len(whole)
+	vassert(ok, "the window lies inside the input")
+	if !ok {
+		return
+	}
+	vassert(whole[ws:ws+len(contents)] == contents, "the window is the part of the input at the position the relative offset implies")
+	_, wantLine, _ := getLineByOffset(whole, abs)
+	_, gotLine, _ := getLineByOffset(contents, rel)
+	vassert(gotLine+line == wantLine, "the printed line number is the line of the offending byte within the whole input")
+}
+
+
+type c17stream struct {
+	data []byte
+	pos  int64
+}
+
+func (s *c17stream) Read(p []byte) (int, error) {
+	if s.pos >= int64(len(s.data)) {
+		return 0, io.EOF
+	}
+	n := copy(p, s.data[s.pos:])
+	s.pos += int64(n)
+	return n, nil
+}
+
+func (s *c17stream) Seek(off int64, whence int) (int64, error) {
+	switch whence {
+	case io.SeekCurrent:
+		off += s.pos
+	case io.SeekEnd:
+		off += int64(len(s.data))
+	}
+	if off < 0 {
+		return 0, errors.New("negative position")
+	}
+	s.pos = off
+	return off, nil
+}
+
+func vmemo_c17data(L, S, term int) []byte {
+	data := make([]byte, S)
+	for i := range data {
+		data[i] = 'a' + byte(i%23)
+		if i%L == L-1 {
+			data[i] = '\n'
+			if term == 2 {
+				data[i] = '\r'
+			}
+		}
+		if term == 1 && i%L == L-2 {
+			data[i] = '\r'
+		}
+	}
+	return data
+}
+
+var c17Terms = []string{"LF", "CRLF", "CR"}
+
+// H_C17_window: for a seekable input larger than the 16 KiB window, the report built from
+// the window (getContents + jsonParseError.Error) names the same line, quotes the same
+// excerpt and puts the caret in the same column as the report built from the whole input
+// (whose arithmetic H_C17_line/long/utf8 decide). The offending offset ranges over +-6
+// around every boundary of the window arithmetic; line lengths below and above the
+// guaranteed left context; input sizes that end inside a skipped block.
+func H_C17_window() {
+	L := []int{997, 70000, 5000}[nondetChoice(3)]
+	S := []int{40000, 16385, 28677, 16384, 20000, 12289, 49152}[nondetChoice(7)]
+	term := nondetChoice(3)
+	vlabel("terminator", c17Terms[term])
+	data := vmemo_c17data(L, S, term)
+	bases := []int{1, 4096, 8192, 12288, 16384, 20480, 24576, 28672, 32768, 36864, 40000, 45056, 49152}
+	O := bases[nondetChoice(len(bases))]
+	// the offsets are enumerated, not symbolic: the content of a window that starts at a
+	// symbolic position is 16 KiB of symbolic bytes, which puts every byte comparison of the
+	// line scanner on the solver (measured: 15 M queries without finishing)
+	O += nondetChoice(13) - 6
+	unexpectedEOF := nondetBool()
+	if unexpectedEOF {
+		O = S // the decoder ran out of input: the report points one past the last byte
+	}
+	if O < 1 || O > S {
+		return
+	}
+	whole := string(data)
+	st := &c17stream{data: data, pos: int64(nondetChoice(2) * 5000)}
+	before := st.pos
+	ir := newInputReader(st)
+	vassert(ir.rs != nil, "a seekable reader is re-read through Seek")
+	off, line := int64(O), 0
+	contents := ir.getContents(&off, &line)
+	vassert(st.pos == before, "the reading position is restored after building the report")
+	vassert(len(contents) <= 16*1024, "the window is at most 16 KiB")
+	var e error = &json.SyntaxError{Offset: off}
+	if unexpectedEOF {
+		e = io.ErrUnexpectedEOF
+	}
+	pe := &jsonParseError{"f", contents, line, e}
+	abs := O
+	if unexpectedEOF {
+		abs = S + 1
+	}
+	rel := int(off)
+	if unexpectedEOF {
+		rel = len(contents) + 1 // what Error() uses for an unexpected end of input
+	}
+	c17Window(whole, abs, contents, rel, line, unexpectedEOF)
+	vassert(len(pe.Error()) > 0, "the report is rendered")
+	vreach("end")
+}
+
+// ---- the tee buffer of a non-seekable input (pipes, stdin) ----
+
+type c17pipe struct {
+	data  string
+	chunk int
+}
+
+func (p *c17pipe) Read(b []byte) (int, error) {
+	if len(p.data) == 0 {
+		return 0, io.EOF
+	}
+	n := len(b)
+	if n > p.chunk {
+		n = p.chunk
+	}
+	if n > len(p.data) {
+		n = len(p.data)
+	}
+	copy(b, p.data[:n])
+	p.data = p.data[n:]
+	return n, nil
+}
+
+func vmemo_c17docs(n, kind int) string {
+	return strings.Repeat(c17Docs[kind], n)
+}
+
+var c17Docs = []string{
+	"[10000, 20000, 30000, 40000, 50000, 60000]\n",
+	"{\"key\": \"some string value\", \"n\": 12345} ",
+	"[1,\r\n 2, 3, 4, 5, 6, 7, 8, 9, 10, 11, 12, 13]\r\n",
+	"[100000, 200000, 300000, 400000]\r",
+	"1\n",
+}
+
+var c17Bad = []string{"[1,2,x]\n", "{\"a\" 1}\n", "tru3\n2\n", "[1,\n 2,\n ]\n"}
+
+func vmemo_c17refOffset(n, kind, badIdx int) int {
+	ref := json.NewDecoder(strings.NewReader(vmemo_c17docs(n, kind) + c17Bad[badIdx] + "3\n"))
+	for {
+		var v any
+		if err := ref.Decode(&v); err != nil {
+			if se, ok := err.(*json.SyntaxError); ok {
+				return int(se.Offset)
+			}
+			return -1
+		}
+	}
+}
+
+// H_C17_tee: a malformed document in a non-seekable input larger than the 16 KiB tee
+// buffer: the report names the same line, quotes the same excerpt and puts the caret in
+// the same column as the report computed from the whole input. The number of documents
+// before the malformed one is enumerated around the sizes at which the buffer is reset
+// (the real decoder runs natively over the interpreted reader, so its read-ahead is real).
+func H_C17_tee() {
+	kind := nondetChoice(4 + vparam("full", 0))
+	unit := len(c17Docs[kind])
+	// bytes of well-formed documents in front of the malformed one
+	sizes := []int{100, 16000, 16380, 16390, 16500, 17000, 18000, 33000, 16384, 16900, 17500, 20000, 24000, 32000, 32768, 34000, 40000, 50000, 66000}
+	ns := 7
+	if vparam("full", 0) == 1 {
+		ns = len(sizes)
+	}
+	front := sizes[nondetChoice(ns)] + nondetChoice(3)*unit
+	n := front / unit
+	vlabel("terminator", []string{"LF", "none", "CRLF", "CR", "LF"}[kind])
+	badIdx := nondetChoice(4)
+	whole := vmemo_c17docs(n, kind) + c17Bad[badIdx] + "3\n"
+	chunk := []int{1 << 20, 4096, 1000}[nondetChoice(3)]
+	// reference: where the decoder reports the error when it is given the whole input
+	abs := vmemo_c17refOffset(n, kind, badIdx)
+	if abs < 0 {
+		return
+	}
+	it := newJSONInputIter(&c17pipe{whole, chunk}, "<stdin>")
+	var got error
+	for k := 0; k < n+2; k++ {
+		v, ok := it.Next()
+		if !ok {
+			break
+		}
+		if e, isErr := v.(error); isErr {
+			got = e
+			break
+		}
+	}
+	pe, ok := got.(*jsonParseError)
+	vassert(ok, "the malformed document is reported as a JSON parse error")
+	if !ok {
+		return
+	}
+	ge, ok := pe.err.(*json.SyntaxError)
+	vassert(ok, "the report carries the decoder's syntax error")
+	if !ok {
+		return
+	}
+	c17Window(whole, abs, pe.contents, int(ge.Offset), pe.line, false)
+	vassert(len(pe.Error()) > 0, "the report is rendered")
+	vreach("end")
 }
